@@ -65,8 +65,28 @@ def Some(v):
 
 NONE = mk(OPTION, 'None')
 
-# length side table: term -> int (filled from destination types, see interp)
+# length side table: term -> int, filled from destination types (see interp).  One table per suite
+# (`use_suite`); symbolic parameters are only entered for the duration of one summary.
 LEN = {}
+_LENS = {}
+LEN_CONFLICTS = []
+
+
+def use_suite(name):
+    global LEN
+    LEN = _LENS.setdefault(name, {})
+
+
+def note_len(t, n):
+    if t is None or n is None:
+        return
+    if t[0] == 'sym':
+        return
+    old = LEN.get(t)
+    if old is None:
+        LEN[t] = n
+    elif old != n:
+        LEN_CONFLICTS.append((show(t)[:200], old, n))
 
 
 def Cat(parts):
@@ -133,6 +153,8 @@ def tlen(t):
         if t[1] == 'I2OSP' and t[2][1][0] == 'int':
             return t[2][1][1]
         if t[1] in ('Expand',) and t[2][2][0] == 'int':
+            return t[2][2][1]
+        if t[1] == 'Rng' and len(t[2]) > 2 and t[2][2][0] == 'int':
             return t[2][2][1]
     return LEN.get(t)
 
